@@ -44,13 +44,18 @@ func code[T constraints.Integer](a int64) T {
 func minAmp[T constraints.Integer]() int64 { return -(int64(1) << (widthOf[T]() - 1)) }
 func maxAmp[T constraints.Integer]() int64 { return int64(^uint64(0) >> (65 - widthOf[T]())) }
 
+// conv2 converts two samples with the real function, either as two frames of a mono buffer or as the
+// two channels of one frame (case split: value-level behaviour must not depend on the layout).
 func conv2[S, D signal.SignalTypes](conv func(*signal.Buffer[S], *signal.Buffer[D]) int, x0, x1 S) (D, D) {
-	src := signal.Alloc[S](signal.Allocator{Channels: 1, Length: 2, Capacity: 2})
-	dst := signal.Alloc[D](signal.Allocator{Channels: 1, Length: 2, Capacity: 2})
+	a := signal.Allocator{Channels: 1, Length: 2, Capacity: 2}
+	if vf.PickOnce("layout", 0, 1) == 1 {
+		a = signal.Allocator{Channels: 2, Length: 1, Capacity: 1}
+	}
+	src, dst := signal.Alloc[S](a), signal.Alloc[D](a)
 	src.SetSample(0, x0)
 	src.SetSample(1, x1)
 	n := conv(src, dst)
-	vf.Assert("two-frames", n == 2)
+	vf.Assert("frames-converted", n == a.Length)
 	return dst.Sample(0), dst.Sample(1)
 }
 
